@@ -157,3 +157,7 @@ def run(ctx, eng):
     ctx.ob('FLOW.ping', f4.qual, 'ping() emits one PING with the payload',
            n > 0 and not bad, '; '.join(sorted(set(bad))) or 'ok',
            node=f4.node)
+    # a PING is answered in every connection state before close: the PING
+    # cells of the connection machine agree with the role reference
+    from . import roles
+    roles.compare_conn(eng, ctx, 'FSM.conn', inputs={'SEND_PING', 'RECV_PING'})
